@@ -937,9 +937,11 @@ class Builder:
                 assert isinstance(cond_operand, operand.Register)
                 temp_regs_to_remove.append(cond_operand)
 
+            # Exit when the value is *at most* `condition.value`:
+            # value <= bound  <=>  value < bound + 1
             branch = ICmd(
                 instruction=GenericInstr.BLT,
-                operands=[cond_operand, condition.value, Label(exit_label)],
+                operands=[cond_operand, condition.value + 1, Label(exit_label)],
             )
             if_start.append(branch)
 
